@@ -123,6 +123,21 @@ def run(ck):
                    "value must be reference * exp(-Ea/R * (1/T - 1/T_exp))", expected=lambda: str(want.r)[:400],
                    found=lambda: str(gv.r)[:400] if isinstance(gv, Num) else repr(got)[:300], sample=True)
             sck.ob("M2", f.qualname, "extrapolated permeance is in kg/(m2 h kPa)", where, isinstance(gu, StrV) and gu.s == KG, found=repr(gu))
+            # M6: for experiments lying on one Arrhenius line the result does not depend on which experiment is nearest
+            if ae == "notnone" and init == "none" and unit == KG and isinstance(gv, Num):
+                from ..poly import subst, mk_exp
+                pv = orc.eval("E.permeance.value").r.single_atom()
+                te = t_exp.single_atom()
+                ea = orc.eval("E.activation_energy").r
+                if pv is not None and te is not None:
+                    P0, T0 = Rat.sym("#P0", ("nonneg", "pos")), Rat.sym("#T0", ("nonneg", "pos"))
+                    Rc = orc.eval("R").r
+                    line = P0 * mk_exp(-ea / Rc * (1 / t_exp - 1 / T0))
+                    on_line = subst(gv.r, {pv.id: line})
+                    want_line = P0 * mk_exp(-ea / Rc * (1 / T - 1 / T0))
+                    sck.ob("M6", f.qualname, "on an Arrhenius line the permeance is the same whichever experiment is nearest", where,
+                           on_line == want_line, "substituting P_i = P0*exp(-Ea/R (1/T_i - 1/T0)) must give P0*exp(-Ea/R (1/T - 1/T0))",
+                           expected=lambda: str(want_line)[:300], found=lambda: str(on_line)[:300], sample=True)
     ck.floor("permeance arms evaluated", arms, 24)
     check_regression(ck, repo)
     check_selectivity(ck, repo)
